@@ -6,6 +6,7 @@ import (
 	"fmt"
 	"strconv"
 	"strings"
+	"sync"
 	"testing"
 	"time"
 
@@ -16,7 +17,7 @@ import (
 )
 
 func TestMain(m *testing.M) {
-	vh.Rule("rapid: default (ENCRYPT4) login configurations against the scripted peer: passwords of arbitrary bytes, length 0..key capacity (incl. passwords equal to / substrings of user, host, app name, '512', the program name), 0..3 remote servers with own passwords, nonces 1..64 bytes, RSA 1024/1536/2048, packet sizes announced by the server 256..4096. Oracles: (1) the login record's password slot (offset 62, 30+1 bytes) is all zero; (2) non-interference: a second login identical except for same-length passwords produces byte-identical traffic outside the LONGBINARY ciphertexts located by the independent decoder; (3) a password >= 6 bytes that is not a substring of another configured field occurs in no written byte and in no error text of failing logins; (4) the peer decrypts (RSA-OAEP/SHA-1, empty label) every ciphertext to nonce||secret: account password (LOGPWD3 and first REMPWD3 entry), each remote password, a 32-byte session key; (5) freshness: the two ciphertexts of the account password differ, session keys of the two logins differ; (6) control: in the plain flow the password IS in the slot. Non-trivial: password length >= 1; distinct by (password, config)")
+	vh.Rule("rapid: default (ENCRYPT4) login configurations against the scripted peer: passwords of arbitrary bytes, length 0..key capacity (incl. passwords equal to / substrings of user, host, app name, '512', the program name), 0..3 remote servers with own passwords, nonces 1..64 bytes, RSA 1024/1536/2048, packet sizes announced by the server 256..4096. Oracles: (1) the login record's password slot (offset 62, 30+1 bytes) is all zero; (2) non-interference: a second login identical except for same-length passwords produces byte-identical traffic outside the LONGBINARY ciphertexts located by the independent decoder; (3) a password >= 6 bytes that is not a substring of another configured field occurs in no written byte and in no error text of failing logins; (4) the peer decrypts (RSA-OAEP/SHA-1, empty label) every ciphertext to nonce||secret: account password (LOGPWD3 and first REMPWD3 entry), each remote password, a 32-byte session key; (5) freshness: no two ciphertexts of a login are equal (the account password is sent twice, remote passwords may equal the account's or each other's), session keys of the two logins differ; the same for 2..8 logins running concurrently; (6) control: in the plain flow the password IS in the slot. Non-trivial: password length >= 1; distinct by (password, config)")
 	vh.Assume("crypto randomness is not reproducible by seed: the case stores key and nonce, the oracles do not depend on particular random bytes; capability masks are compared semantically (the library writes the mask types in map order)")
 	vh.Main(m, "C09")
 }
@@ -294,9 +295,15 @@ func runCase(c c09Case) *vh.Failure {
 	if constant {
 		return vh.Failf("C09/session-key", "%s: session key is 32 times the byte %#x", where, symkey[0])
 	}
-	// (5) freshness
-	if bytes.Equal(p2.ciphers[0], p2.ciphers[1]) {
-		return vh.Failf("C09/no-fresh-randomness", "%s: the two ciphertexts of the account password are identical", where)
+	// (5) freshness: every ciphertext is made with its own randomness - no two are equal,
+	// also where the secrets are (the account password is sent twice, remote servers may share
+	// a password with the account or with each other)
+	for i := range p2.ciphers {
+		for j := i + 1; j < len(p2.ciphers); j++ {
+			if bytes.Equal(p2.ciphers[i], p2.ciphers[j]) {
+				return vh.Failf("C09/no-fresh-randomness", "%s: ciphertexts %d and %d of the second client message are identical (equal secrets must still be encrypted with fresh randomness)", where, i, j)
+			}
+		}
 	}
 	// (2) non-interference
 	res2 := loginpeer.Run(cfg(c, c.Password2), s, 2*time.Second)
@@ -406,7 +413,16 @@ func genCase(rt *rapid.T) c09Case {
 	}
 	n := rapid.IntRange(0, 3).Draw(rt, "remotes")
 	for i := 0; i < n; i++ {
-		c.Remotes = append(c.Remotes, remote{Name: rapid.StringMatching(`[A-Z0-9_]{0,20}`).Draw(rt, "remname"), Password: genSecret(rt, "rempw", minI(capacity, 60), &c)})
+		r := remote{Name: rapid.StringMatching(`[A-Z0-9_]{0,20}`).Draw(rt, "remname"), Password: genSecret(rt, "rempw", minI(capacity, 60), &c)}
+		switch rapid.IntRange(0, 5).Draw(rt, "rempwsame") {
+		case 0: // same password as the account
+			r.Password = append([]byte{}, c.Password...)
+		case 1: // same password as the previous remote server
+			if i > 0 {
+				r.Password = append([]byte{}, c.Remotes[i-1].Password...)
+			}
+		}
+		c.Remotes = append(c.Remotes, r)
 	}
 	if rapid.Bool().Draw(rt, "packsize") {
 		c.PackSize = rapid.SampledFrom([]int{256, 512, 1024, 2048, 4096}).Draw(rt, "ps")
@@ -442,4 +458,48 @@ func TestPlainFlowControl(t *testing.T) {
 		return c
 	}
 	vh.Check(t, "TestPlainFlowControl", vh.N(60, 1000), gen, runCase)
+}
+
+// several connections logging in at the same time (a connection pool filling up): every
+// login must still satisfy all oracles
+func TestConcurrentLogins(t *testing.T) {
+	gen := func(rt *rapid.T) []c09Case {
+		n := rapid.IntRange(2, 8).Draw(rt, "logins")
+		var cs []c09Case
+		for i := 0; i < n; i++ {
+			c := genCase(rt)
+			c.Reject = ""
+			if len(c.Password) > c.Key.Capacity()-len(c.Nonce) {
+				c.Password = c.Password[:c.Key.Capacity()-len(c.Nonce)]
+				c.Password2 = c.Password2[:len(c.Password)]
+			}
+			cs = append(cs, c)
+		}
+		return cs
+	}
+	run := func(cs []c09Case) *vh.Failure {
+		res := make([]*vh.Failure, len(cs))
+		var wg sync.WaitGroup
+		for round := 0; round < 4; round++ {
+			for i := range cs {
+				wg.Add(1)
+				go func(i int) {
+					defer wg.Done()
+					if f := runCase(cs[i]); f != nil {
+						res[i] = f
+					}
+				}(i)
+			}
+			wg.Wait()
+		}
+		for _, f := range res {
+			if f != nil {
+				f.Msg = fmt.Sprintf("(%d logins running concurrently) %s", len(cs), f.Msg)
+				return f
+			}
+		}
+		vh.Label("concurrent-logins")
+		return nil
+	}
+	vh.Check(t, "TestConcurrentLogins", vh.N(25, 500), gen, run)
 }
